@@ -21,6 +21,7 @@
 // binary ::= x41 b1 b0 <binary-data> binary
 //        ::= B b1 b0 <binary-data>
 //        ::= [x20-x2f] <binary-data>
+//        ::= [x34-x37] b0 <binary-data>
 //
 // Binary data is encoded in chunks. The octet x42 ('B') encodes the final chunk
 // and x41 ('A') represents any non-final chunk. Each chunk has a 16-bit // length value.
@@ -29,6 +30,9 @@
 // short binary
 // Binary data with length less than 15 may be encoded by a single octet length [x20-x2f].
 // 	len = code - 0x20
+//
+// Binary data with length less than 1024 may be encoded by a two-octet length [x34-x37] b0.
+// 	len = 256 * (code - 0x34) + b0
 
 package hessian
 
@@ -46,6 +50,8 @@ const (
 	_binaryShortLenTagMin = byte(0x20) // 1-byte length binary min
 	_binaryShortLenTagMax = byte(0x2f) // 1-byte length binary max
 	_binaryShortTagMaxLen = int(_binaryShortLenTagMax - _binaryShortLenTagMin)
+	_binaryMiddleTagMin   = byte(0x34) // 2-byte length binary min
+	_binaryMiddleTagMax   = byte(0x37) // 2-byte length binary max
 )
 
 var (
@@ -153,21 +159,34 @@ func binaryShortTag(tag byte) bool {
 	return tag >= _binaryShortLenTagMin && tag <= _binaryShortLenTagMax
 }
 
+func binaryMiddleTag(tag byte) bool {
+	return tag >= _binaryMiddleTagMin && tag <= _binaryMiddleTagMax
+}
+
 func binaryChunkTag(tag byte) bool {
 	return tag == _binaryFinalChunk || tag == _binaryChunk
 }
 
 func binaryEndTag(tag byte) bool {
-	return tag == _binaryFinalChunk || binaryShortTag(tag)
+	return tag == _binaryFinalChunk || binaryShortTag(tag) || binaryMiddleTag(tag)
 }
 
 func binaryTag(tag byte) bool {
-	return binaryShortTag(tag) || binaryChunkTag(tag)
+	return binaryShortTag(tag) || binaryMiddleTag(tag) || binaryChunkTag(tag)
 }
 
 func getBinaryLen(reader ByteRuneReader, tag byte) (int, error) {
 	if binaryShortTag(tag) {
 		return int(tag - _binaryShortLenTagMin), nil
+	}
+
+	if binaryMiddleTag(tag) {
+		bs := make([]byte, 1)
+		_, err := io.ReadFull(reader, bs)
+		if err != nil {
+			return 0, err
+		}
+		return int(tag-_binaryMiddleTagMin)<<8 + int(bs[0]), nil
 	}
 
 	bs := make([]byte, 2)
